@@ -1264,6 +1264,9 @@ func verifyBlindedMessages(proofs cashu.Proofs, blindedMessages cashu.BlindedMes
 	}
 	if p2pkTags.NSigs > 0 {
 		signaturesRequired = p2pkTags.NSigs
+	} else if secret.Kind == nut10.HTLC {
+		// HTLC only requires signatures if n_sigs is present (same as for the inputs)
+		signaturesRequired = 0
 	}
 
 	// Check that the conditions across all proofs are the same
@@ -1291,6 +1294,8 @@ func verifyBlindedMessages(proofs cashu.Proofs, blindedMessages cashu.BlindedMes
 		}
 		if p2pkTags.NSigs > 0 {
 			currentSignaturesRequired = p2pkTags.NSigs
+		} else if secret.Kind == nut10.HTLC {
+			currentSignaturesRequired = 0
 		}
 
 		currentKeys, err := nut11.PublicKeys(secret)
@@ -1374,6 +1379,9 @@ func verifyBlindedMessages(proofs cashu.Proofs, blindedMessages cashu.BlindedMes
 			return nut11.InvalidKindErr
 		}
 
+		if signaturesRequired == 0 {
+			continue
+		}
 		if nut11.DuplicateSignatures(signatures) {
 			return nut11.DuplicateSignaturesErr
 		}
